@@ -71,4 +71,18 @@ def contHeap : Heap (CV String) :=
     objs := fun i => ⟨i - 2, i - 1, []⟩,
     next := 9 }
 
+/-- the sharing pattern of `r.deepcopy()` on `contHeap` (executable; compared with `is`-identity probes on the real
+    class by harness/props/c11.py, stream `container-sharing`): is the first / second group inside the copy's tuple the
+    original's; is the copy's token 1 the original's group / the copy's own first tuple element (no memo: no); does
+    appending to the first group inside the copy's tuple change what the original shows; does the copy show what the
+    original shows -/
+def contShare : List Bool :=
+  let r := deepcopyC 1 contHeap 8
+  match r.1.lists (r.1.objs r.2).lst with
+  | [.atom (.cont _ [.ref a, _, .ref b]), .ref c] =>
+    [decide (a = 2), decide (b = 5), decide (c = 2), decide (c = a),
+     decide (asListC 3 (mutate r.1 a (.append (.atom (.sc "z")))) 8 ≠ asListC 3 contHeap 8),
+     decide (asListC 3 r.1 r.2 = asListC 3 contHeap 8)]
+  | _ => []
+
 end PP.PRHeap
